@@ -259,6 +259,7 @@ let next_setter t : setter =
   match next t with
   | "code" -> SCode (next_z t) | "diag" -> SDiag (next_hex t) | "matched" -> SMatched (next_hex t)
   | "ctrls" -> SControls (next_controls t)
+  | "mutctrls" -> SControls (next_controls t)   (* the control values the response refers to were changed in place: it shows their current fields *)
   | "addattr" -> let n = next_hex t in let vs = next_list t next_hex in SAddAttr (n, vs)
   | "name" -> SName (next_hex t)
   | k -> failwith ("bad setter " ^ k)
